@@ -515,6 +515,13 @@ def numberscanSlice : P String := do
   let blanks ← many m nat
   let A : Scan.A := { pageInfo := fun i => (infos.find? (fun x => x.1 == i)).map (fun x => (x.2.1, x.2.2)),
                       noWords := fun i => blanks.contains i }
+  -- the number of every page-number link is what the model reads from the anchor's inner text
+  let SA := styleOnlyAtoms t
+  let bad := infos.filter fun x =>
+    match findNode x.1 t with
+    | some a => Pg.linkTextToNumber (innerText SA a) != some x.2.1
+    | none => true
+  if !bad.isEmpty then pure s!"anchor-number-mismatch at {bad.map (·.1)}" else
   match Scan.scanGroups A t with
   | none => pure "fuel-exhausted"
   | some gs => pure (" ".intercalate (gs.map (fun g => s!"<{g.deltaSign}:{",".intercalate (g.list.map pinfoStr)}>")))
